@@ -129,6 +129,14 @@ def generate(program, spec, qualname, recv_cls=None, case=None):
             if name.endswith("!"):
                 s0 = _mk_state(entry_heap, s)
                 ex.oblige(s, "raises", f"{name}-raised-when-declared", None, z3.Not(calls.spec_eval(ex, s0, env, cond)))
+        for (gname, otext, vtext) in c.ghost_updates:
+            # ghost statement of the contract, executed at the normal exit: ghost[obj] := value (both read in the final state)
+            go = calls.spec_eval_value(ex, s, env, otext, old=ex.entry_old, result=res)
+            gv = calls.spec_eval_value(ex, s, env, vtext, old=ex.entry_old, result=res)
+            go = ex.as_ref(go, s, None)
+            kind = ex.S.ghost[gname]
+            gt = ex.to_val(gv) if kind == "val" else (ex.as_int(gv, s, None) if kind == "int" else ex.truthy(gv, s))
+            ex.heap_set(s, gname, z3.Store(ex.heap_get(s, gname), go.t, gt))
         for lab, text in c.ensures:
             g = calls.spec_eval(ex, s, env, text, old=ex.entry_old, result=res)
             ex.oblige(s, "ensures", lab, None, g)
@@ -314,8 +322,12 @@ def discharge(ob, use_cvc5=True, timeout_ms=None, seed=0):
         for a in ground:
             s1.add(a)
         s1.add(z3.Not(ob.goal))
-        if s1.check() == z3.unsat:
+        r1 = s1.check()
+        if r1 == z3.unsat:
             return dict(verdict="discharged", backend="z3", time=time.time() - t0, detail="ground facts sufficed")
+        ground_timed_out = (r1 == z3.unknown)
+    else:
+        ground_timed_out = False
     axs = relevant_axioms(ob.assumptions, ob.goal)
     base = timeout_ms or Z3_TIMEOUT_MS
     # relevancy level 1 vs 2 changes which instantiations z3 performs; neither dominates, so both are tried
@@ -334,6 +346,16 @@ def discharge(ob, use_cvc5=True, timeout_ms=None, seed=0):
             return dict(verdict="discharged", backend="z3", time=time.time() - t0, detail=f"relevancy={rel} seed={sd}")
         if not (r == z3.unknown and ("timeout" in s.reason_unknown() or "canceled" in s.reason_unknown())):
             break       # saturated or sat: a longer run will not help
+    if r == z3.unknown and ground_timed_out and RETRY:
+        # the 2 s ground stage may have been starved on a busy machine: give it a real budget before giving up
+        s1 = smt.new_solver(5 * 2000, seed + 3)
+        for a in relevant_axioms(ground, ob.goal):
+            s1.add(a)
+        for a in ground:
+            s1.add(a)
+        s1.add(z3.Not(ob.goal))
+        if s1.check() == z3.unsat:
+            return dict(verdict="discharged", backend="z3", time=time.time() - t0, detail="ground facts sufficed (second, longer attempt)")
     dt = time.time() - t0
     reason = s.reason_unknown() if r == z3.unknown else "sat"
     model_txt = ""
@@ -382,14 +404,33 @@ def _has_quantifier(t):
     return r
 
 
+SLOTS = None        # global CPU-slot semaphore shared by every forked worker (set by run.run_units before forking)
+
+
+class _Slot:
+    def __enter__(self):
+        if SLOTS is not None:
+            SLOTS.acquire()
+
+    def __exit__(self, *a):
+        if SLOTS is not None:
+            SLOTS.release()
+
+
 def discharge_all(obs, use_cvc5):
     """discharge the obligations of one unit, fanning out over forked children (the z3 terms live in this
-    process's memory, so fork -- not pickling -- is what lets children share them)"""
+    process's memory, so fork -- not pickling -- is what lets children share them).  Every solver call holds one
+    slot of the global semaphore, so the number of solvers running at once never exceeds the core count however
+    the obligations are spread over units."""
     import json as _json
     nproc = int(os.environ.get("PYVC_OB_PROCS", "1"))
     if nproc <= 1 or len(obs) < 8:
-        return [discharge(ob, use_cvc5) for ob in obs]
-    nproc = min(nproc, len(obs))
+        out = []
+        for ob in obs:
+            with _Slot():
+                out.append(discharge(ob, use_cvc5))
+        return out
+    nproc = min(nproc, max(1, len(obs) // 4))
     chunks = [list(range(k, len(obs), nproc)) for k in range(nproc)]
     children = []
     for idxs in chunks:
@@ -401,7 +442,8 @@ def discharge_all(obs, use_cvc5):
             try:
                 for i in idxs:
                     try:
-                        out[i] = discharge(obs[i], use_cvc5)
+                        with _Slot():
+                            out[i] = discharge(obs[i], use_cvc5)
                     except Exception as e:          # pragma: no cover
                         out[i] = dict(verdict="timeout", backend="z3", time=0.0, detail="checker error: " + repr(e))
                 with os.fdopen(w, "w") as f:
@@ -459,13 +501,17 @@ def verify_unit(program, spec, qualname, recv_cls=None, use_cvc5=True, keep=Fals
             return total
     res = UnitResult(unit)
     t0 = time.time()
+    slot = _Slot()
+    slot.__enter__()            # symbolic execution is CPU-bound too: hold a slot until the solvers take over
     try:
         ex, c = generate(program, spec, qualname, recv_cls, case)
     except Unsupported as u:
+        slot.__exit__()
         res.status = "unsupported"
         res.message = str(u)
         return res
     except Exception:
+        slot.__exit__()
         res.status = "crash"
         res.message = traceback.format_exc()
         return res
@@ -495,6 +541,7 @@ def verify_unit(program, spec, qualname, recv_cls=None, use_cvc5=True, keep=Fals
                 break
         if not reachable:
             res.vacuous = True
+    slot.__exit__()
     verdicts = discharge_all(ex.obligations, use_cvc5)
     for ob, d in zip(ex.obligations, verdicts):
         rec = dict(id=ob.id, kind=ob.kind, label=ob.label, line=ob.line, stack=ob.meta.get("stack"))
